@@ -216,7 +216,7 @@ fn scope_for(inp_kind: &str, d: &Desc, script: &ScriptBuf, value: Amount) -> Sig
     }
 }
 
-fn run_interp(u: &Universe, tx: &Transaction, prevout: &TxOut, ssig: &ScriptBuf, wit: &[Vec<u8>]) -> Value {
+pub fn run_interp(u: &Universe, tx: &Transaction, prevout: &TxOut, ssig: &ScriptBuf, wit: &[Vec<u8>]) -> Value {
     let witness = Witness::from_slice(wit);
     let r = catch_unwind(AssertUnwindSafe(|| -> Value {
         let spk = prevout.script_pubkey.clone();
